@@ -451,13 +451,13 @@ Lemma read_sget m p : inv m -> p <> [] ->
 Proof. intros Hinv Hp. rewrite (read_spec _ _ Hinv Hp). reflexivity. Qed.
 
 Lemma copy_refines m d sr : inv m -> d <> [] -> sr <> [] ->
-  fst (copy m d sr) = fst (spec_copy false (files m) d sr) /\
+  fst (copy m d sr) = fst (spec_copy (files m) d sr) /\
   inv (snd (copy m d sr)) /\
-  files (snd (copy m d sr)) = snd (spec_copy false (files m) d sr).
+  files (snd (copy m d sr)) = snd (spec_copy (files m) d sr).
 Proof.
   intros Hinv Hd Hs. unfold copy, spec_copy. rewrite (read_sget _ _ Hinv Hs).
   destruct (sget sr (files m)) as [c|]; simpl; [|auto].
-  apply write_refines; assumption.
+  destruct (same_path d sr); simpl; [auto|]. apply write_refines; assumption.
 Qed.
 
 Lemma step_refines m o : inv m ->
@@ -474,7 +474,7 @@ Proof.
   - destruct (copy_refines m (components d) (components sr) Hinv (components_nonempty d) (components_nonempty sr))
       as [H1 [H2 H3]].
     destruct (copy m (components d) (components sr)) as [ok m'].
-    destruct (spec_copy false (files m) (components d) (components sr)) as [ok' s'].
+    destruct (spec_copy (files m) (components d) (components sr)) as [ok' s'].
     simpl in *. subst. auto.
 Qed.
 
@@ -530,8 +530,7 @@ Proof.
   - reflexivity.
   - reflexivity.
   - unfold spec_list. rewrite (listing_strict _ _ H). reflexivity.
-  - unfold spec_copy. destruct (sget (components sr) s); [|reflexivity].
-    rewrite andb_true_r in H. rewrite H. reflexivity.
+  - reflexivity.
 Qed.
 
 Lemma run_strict : forall ops s, no_deviation s ops = true ->
@@ -882,8 +881,9 @@ Proof.
   - pose proof (write_canon m n c Hinv Hc) as H.
     destruct (write m (components n) c) as [ok m']. exact H.
   - unfold copy. destruct (read m (components sr)) as [c| | |]; simpl; try exact Hc.
-    pose proof (write_canon m d (if same_path (components d) (components sr) then [] else c) Hinv Hc) as H.
-    destruct (write m (components d) _) as [ok m']. exact H.
+    destruct (same_path (components d) (components sr)); simpl; [exact Hc|].
+    pose proof (write_canon m d c Hinv Hc) as H.
+    destruct (write m (components d) c) as [ok m']. exact H.
 Qed.
 
 Lemma run_canon : forall ops m, inv m -> canon m -> canon (snd (run_fs m ops)).
@@ -972,10 +972,9 @@ Proof.
     - pose proof (spec_write_walkable s (components n) c Hs (Hw _ n (or_introl eq_refl) eq_refl)) as H.
       destruct (spec_write s (components n) c). exact H.
     - unfold spec_copy. destruct (sget (components sr) s) as [c|]; simpl; [|exact Hs].
-      pose proof (spec_write_walkable s (components d)
-                    (if negb b && same_path (components d) (components sr) then [] else c)
-                    Hs (Hw _ d (or_introl eq_refl) eq_refl)) as H.
-      destruct (spec_write s (components d) _). exact H. }
+      destruct (same_path (components d) (components sr)); simpl; [exact Hs|].
+      pose proof (spec_write_walkable s (components d) c Hs (Hw _ d (or_introl eq_refl) eq_refl)) as H.
+      destruct (spec_write s (components d) c). exact H. }
   destruct (step_spec b s o) as [r s1]. simpl in Hs1.
   specialize (IH s1 Hs1 (fun o' n H => Hw o' n (or_intror H))).
   destruct (run_spec b s1 ops) as [rs s2]. exact IH.
@@ -1032,12 +1031,21 @@ Proof.
     + intros n c2 Hn. apply (write_frame m d c m' n c2 Hr H Hn).
 Qed.
 
-(* the deviation: copying an object onto itself empties it *)
-Definition ops_copy_self : list op := [OWrite [97] [1; 2; 3]; OCopy [97] [97]; ORead [97]].
-Lemma copy_self_refuted :
+(* copying an object onto itself keeps its content and the whole tree (fix
+   11cc580); an absent object cannot be copied *)
+Theorem copy_self_keeps_content m o : reachable m ->
+  (forall c, read m (components o) = ROk c -> copy m (components o) (components o) = (true, m)) /\
+  (sget (components o) (files m) = None -> copy m (components o) (components o) = (false, m)).
+Proof.
+  intro Hr. unfold copy. split.
+  - intros c H. rewrite H. rewrite (proj2 (same_path_spec _ _) eq_refl). reflexivity.
+  - intro H. rewrite (read_absent_not_exist m o Hr H). reflexivity.
+Qed.
+
+Definition ops_copy_self : list op := [OWrite [97] [1; 2; 3]; OCopy [97] [97]; ORead [97]; OCopy [98] [98]].
+Lemma copy_self_example :
   forallb op_ok ops_copy_self = true /\
-  fst (run_spec true [] ops_copy_self) = [RW true; RC true; RR (ROk [1; 2; 3])] /\
-  fst (run_fs fs_init ops_copy_self) = [RW true; RC true; RR (ROk [])].
+  fst (run_fs fs_init ops_copy_self) = [RW true; RC true; RR (ROk [1; 2; 3]); RC false].
 Proof. vm_compute. auto. Qed.
 
 (* ------------------------------------------ statements as used by Props/C18 *)
